@@ -36,6 +36,8 @@ type Rand struct {
 	// Override, when non-nil, supplies the bytes for the read with that index
 	// (used to force instance-tag draws); missing indices fall back to the DRBG.
 	Override map[int][]byte
+	// Force4 is consumed by successive 4-byte reads (instance-tag generation) before the DRBG is used
+	Force4 [][]byte
 }
 
 // NewRand creates a healthy source.
@@ -83,7 +85,10 @@ func (r *Rand) Read(p []byte) (int, error) {
 		}
 	}
 	var data []byte
-	if o, ok := r.Override[i]; ok && len(o) == len(p) {
+	if len(p) == 4 && len(r.Force4) > 0 {
+		data = append([]byte{}, r.Force4[0]...)
+		r.Force4 = r.Force4[1:]
+	} else if o, ok := r.Override[i]; ok && len(o) == len(p) {
 		data = append([]byte{}, o...)
 	} else {
 		data = Expand(r.Seed, i, len(p))
